@@ -197,10 +197,117 @@ def equivalent_forms(atom, outcome):
     return out
 
 
+FILTER_ADAPTORS = ("filter", "take_while", "skip_while__no")
+
+
+def _closure_truth(P, cf, depth=0):
+    """[(atom, outcome)] facts that hold whenever the closure returns true: its return expression when there is a
+    single non-constant alternative (`|x| cond`, `|x| a && cond`: the last conjunct), with Not stripped"""
+    from .f12 import ret_exprs
+    out = []
+    alts = []
+    for e in ret_exprs(P, cf):
+        for a in (e[1] if e[0] == "phi" else (e,)):
+            alts.append(a)
+    live = [a for a in alts if not (a[0] == "const" and a[1] in (0, False))]
+    if len(live) != 1:
+        return out
+    e = live[0]
+    o = True
+    while e[0] == "unop" and e[1] == "Not":
+        e = e[2]
+        o = not o
+    out.append((e, o))
+    return out
+
+
+def guard_atoms(P, fn):
+    """every (edge, atom, outcome) fact a rule may use as a guard in fn: the switch edges in every equivalent spelling,
+    and, for loops over `iter.filter(|x| cond)`, the loop-entry edge with cond (captures replaced by the parent's
+    expressions; the closure's own parameter stays `("param", 2)`-based and stands for the loop item)"""
+    out = []
+    for b in sorted(fn.live_blocks()):
+        if fn.term(b)["k"] != "switch":
+            continue
+        for (tgt, atom, outcome) in switch_edges(P, fn, b):
+            for (a2, o2) in equivalent_forms(atom, outcome):
+                out.append(((b, tgt), a2, o2))
+    tr = None
+    for nb, t in fn.calls():
+        if method(cname(t)) != "next" or not t["args"]:
+            continue
+        tr = tr or tracer(P, fn)
+        e = tr.operand(t["args"][0], endpos(fn, nb))
+        truths = []
+        for x in walk(e):
+            if x[0] == "call" and strip_generics(x[1]).rsplit("::", 1)[-1] in ("filter", "take_while") and len(x[2]) >= 2:
+                for c in walk(x[2][1]):
+                    if c[0] == "closure" and c[1] in P.fns:
+                        for (atom, o) in _closure_truth(P, P.fns[c[1]]):
+                            truths.append((subst_captures(atom, c[2] if len(c) > 2 and isinstance(c[2], tuple) else ()), o))
+        if not truths:
+            continue
+        for b in fn.live_blocks():
+            if fn.term(b)["k"] != "switch":
+                continue
+            for (tgt, atom, outcome) in switch_edges(P, fn, b):
+                if atom[0] == "variant" and outcome == frozenset(["Some"]) and any(y[0] == "call" and y[3] == (fn.name, nb) for y in walk(atom[1])):
+                    for (a, o) in truths:
+                        for (a2, o2) in equivalent_forms(a, o):
+                            out.append(((b, tgt), a2, o2))
+    return out
+
+
+def subst_captures(e, ops):
+    """an expression of a closure body with its captured variables (`arg1.i`) replaced by what the parent captured"""
+    if not isinstance(e, tuple):
+        return e
+    if len(e) >= 3 and e[0] == "field" and isinstance(e[2], int) and e[2] < len(ops):
+        base = e[1]
+        if base == ("param", 1) or (isinstance(base, tuple) and len(base) == 2 and base[0] == "deref" and base[1] == ("param", 1)):
+            return ops[e[2]]
+    return tuple(subst_captures(x, ops) for x in e)
+
+
+def filter_guard_edges(P, fn, pred):
+    """`for x in iter.filter(|x| cond) { body }` guards the body by cond just as `if !cond { continue }` does: the Some
+    edge of the loop's `next()` counts as a guard edge when the filter closure's truth satisfies pred"""
+    edges = set()
+    tr = None
+    for nb, t in fn.calls():
+        if method(cname(t)) != "next" or not t["args"]:
+            continue
+        tr = tr or tracer(P, fn)
+        e = tr.operand(t["args"][0], endpos(fn, nb))
+        hit = False
+        for x in walk(e):
+            if x[0] == "call" and strip_generics(x[1]).rsplit("::", 1)[-1] in ("filter", "take_while") and len(x[2]) >= 2:
+                for c in walk(x[2][1]):
+                    if c[0] == "closure" and c[1] in P.fns:
+                        for (atom, o) in _closure_truth(P, P.fns[c[1]]):
+                            atom = subst_captures(atom, c[2] if len(c) > 2 and isinstance(c[2], tuple) else ())
+                            for (a2, o2) in equivalent_forms(atom, o):
+                                try:
+                                    if pred(a2, o2, nb):
+                                        hit = True
+                                except (IndexError, TypeError):
+                                    pass
+        if not hit:
+            continue
+        for b in fn.live_blocks():
+            if fn.term(b)["k"] != "switch":
+                continue
+            for (tgt, atom, outcome) in switch_edges(P, fn, b):
+                if atom[0] == "variant" and outcome == frozenset(["Some"]) and any(y[0] == "call" and y[3] == (fn.name, nb) for y in walk(atom[1])):
+                    edges.add((b, tgt))
+    return edges
+
+
 def guard_edges(P, fn, pred):
     """edges (b, tgt) of switch blocks for which pred(atom, outcome, bb) is true — for the atom as written or any
-    logically equivalent spelling of it (equivalent_forms)"""
-    edges = set()
+    logically equivalent spelling of it (equivalent_forms); plus the loop-entry edges of loops over a `.filter(..)`
+    whose closure states the condition (filter_guard_edges)"""
+    edges = set(filter_guard_edges(P, fn, pred))
     for b in fn.live_blocks():
         if fn.term(b)["k"] != "switch":
             continue
